@@ -224,4 +224,59 @@ theorem block_text_roundtrip (H : Bytes → Bytes) (hH : Hash32 H) (b : Block) (
   rw [bind_ok this]
   rfl
 
+/-! ### non-vacuity: concrete non-trivial values meet the hypotheses -/
+
+example : Hash32 H0 := fun _ => rfl
+
+theorem wfList_nil : WFList [] := ⟨by decide, by intro s hs; cases hs⟩
+theorem wfList_one : WFList [[1, 2]] := ⟨by decide, by decide⟩
+
+def exSC : SpendCommitment := ⟨zeroHash, zeroHash, 5, 1, 1, [0x51], [[1, 2]]⟩
+theorem exSC_wf : WFSC exSC := ⟨by decide, by decide, by decide, by decide, rfl, by decide, wfList_one⟩
+
+/-- all four input kinds, input suffix bytes, a vote output with state data, a retirement output -/
+def exTx : TxData :=
+  ⟨1, 0, 7,
+   [⟨1, some (.issuance [9] 100 [1, 2, 3] 1 [0x51] [[1, 2]]), [0xee], []⟩,
+    ⟨1, some (.spend exSC [] [[1, 2]]), [], [0xdd, 0xcc]⟩,
+    ⟨1, some (.coinbase [0xc0]), [], []⟩,
+    ⟨1, some (.veto exSC [] [4, 4] []), [], []⟩],
+   [⟨1, some ⟨zeroHash, 5, 1, [0x51], [[1, 2]]⟩, [0xab], .vote [7, 7]⟩,
+    ⟨1, some ⟨zeroHash, 6, 1, [0x6a, 1], []⟩, [], .original⟩]⟩
+
+example : WFTx H0 exTx := by
+  refine ⟨by decide, by decide, by decide, by decide, ?_, ?_⟩
+  · intro i hi
+    simp only [exTx, List.mem_cons, List.not_mem_nil, or_false] at hi
+    rcases hi with rfl | rfl | rfl | rfl
+    · exact ⟨by decide, rfl, ⟨by decide, by decide, by decide, by decide, by decide, wfList_one⟩, by decide, by decide⟩
+    · exact ⟨by decide, rfl, ⟨exSC_wf, by decide, wfList_one⟩, by decide, by decide⟩
+    · exact ⟨by decide, rfl, (by show ([0xc0] : Bytes).length ≤ max31; decide), by decide, by decide⟩
+    · exact ⟨by decide, rfl, ⟨exSC_wf, by decide, by decide, wfList_nil⟩, by decide, by decide⟩
+  · intro o ho
+    simp only [exTx, List.mem_cons, List.not_mem_nil, or_false] at ho
+    rcases ho with rfl | rfl
+    · exact ⟨by decide, (by show ([7, 7] : Bytes).length ≤ max31; decide), by decide, rfl, ⟨by decide, by decide, rfl, by decide, wfList_one⟩⟩
+    · exact ⟨by decide, trivial, by decide, rfl, ⟨by decide, by decide, rfl, by decide, wfList_nil⟩⟩
+
+example : NoSCSuffix exTx := by
+  intro i hi
+  simp only [exTx, List.mem_cons, List.not_mem_nil, or_false] at hi
+  rcases hi with rfl | rfl | rfl | rfl <;> simp [exSC]
+example : AllTyped exTx := by
+  intro i hi
+  simp only [exTx, List.mem_cons, List.not_mem_nil, or_false] at hi
+  rcases hi with rfl | rfl | rfl | rfl <;> rfl
+
+/-- a header with a suplink carrying sparse signatures -/
+def exHeader : BlockHeader :=
+  ⟨1, 2, zeroHash, 3, zeroHash, [1, 2, 3], [⟨7, zeroHash, [[], [5, 5], [], [], [], [], [], [], [], [6]]⟩]⟩
+
+example : WFHeader exHeader := by
+  refine ⟨by decide, by decide, by decide, by decide, by decide, by decide, by decide, by decide, ?_, by decide⟩
+  intro s hs
+  simp only [exHeader, List.mem_singleton] at hs
+  subst hs
+  exact ⟨by decide, by decide, by decide, by decide⟩
+
 end BytomModel.Props.C04
